@@ -372,7 +372,9 @@ func (self Reflect) childMap(v reflect.Value) node.Node {
 	return &Basic{
 		Peekable: v.Interface(),
 		OnChoose: func(state *node.Selection, choice *meta.Choice) (m *meta.ChoiceCase, err error) {
-			for _, c := range choice.Cases() {
+			// in case-name order so the answer does not depend on map order
+			for _, caseId := range choice.CaseIdents() {
+				c := choice.Cases()[caseId]
 				for _, d := range c.DataDefinitions() {
 					mapKey := reflect.ValueOf(d.Ident())
 					mapVal := v.MapIndex(mapKey)
